@@ -153,8 +153,9 @@ pub enum Layer<'a> {
 		/// per-object cache of the layer's local environment (keyed by object address)
 		id: usize,
 	},
-	/// std.objectRemoveKey(below, name)
-	Mask(String),
+	/// std.objectRemoveKey(below, name): hides `name` as defined by the `span` layers directly below (the removed
+	/// object's own layers), not by whatever the result is later added on top of
+	Mask(String, usize),
 }
 pub struct ObjVal<'a> {
 	pub layers: Vec<Rc<Layer<'a>>>,
@@ -171,10 +172,14 @@ impl<'a> ObjVal<'a> {
 	pub fn field_table(&self, upto: usize) -> BTreeMap<String, bool> {
 		// walk bottom-up: masks delete, definitions merge visibility
 		let mut t: BTreeMap<String, bool> = BTreeMap::new();
-		for l in &self.layers[..upto] {
+		for (i, l) in self.layers[..upto].iter().enumerate() {
 			match &**l {
-				Layer::Mask(n) => {
-					t.remove(n);
+				Layer::Mask(n, span) => {
+					// state of the field as given by the layers under the removed object
+					match self.field_table(i.saturating_sub(*span)).get(n).copied() {
+						Some(v) => t.insert(n.clone(), v),
+						None => t.remove(n),
+					};
 				}
 				Layer::Fields { fields, .. } => {
 					for f in fields {
@@ -594,8 +599,11 @@ impl<'a> Interp<'a> {
 		while li > 0 {
 			li -= 1;
 			match &*this.layers[li] {
-				Layer::Mask(n) if n == name => break,
-				Layer::Mask(_) => {}
+				Layer::Mask(n, span) if n == name => {
+					// skip the removed object's layers, go on below them
+					li = li.saturating_sub(*span);
+				}
+				Layer::Mask(..) => {}
 				Layer::Fields { fields, .. } => {
 					if fields.iter().any(|f| f.name == name) {
 						found = Some(li);
